@@ -98,8 +98,15 @@ class Ctx:
         leaves = {n: w for n, w in widths.items() if "_" in n}
         if leaves:
             B = h.Bundle(name="B")
+            subs = {}
             for n, w in leaves.items():
-                B.add(h.Signal(name=n.split("_", 1)[1], width=w))
+                path = n.split("_")[1:]
+                if len(path) == 1:
+                    B.add(h.Signal(name=path[0], width=w))
+                else:  # g_n_width: member `width` of sub-bundle `n` (members named like attributes of the reference objects)
+                    subs.setdefault(path[0], h.Bundle(name="Sub_" + path[0])).add(h.Signal(name=path[1], width=w))
+            for sn, S in subs.items():
+                B.add(S(), name=sn)
             bname = next(iter(leaves)).split("_", 1)[0]
             self.bundle = self.m.add(B(), name=bname)
         self.helpers = {}
@@ -125,7 +132,10 @@ class Ctx:
         if t == "pref":
             return self.helper(e[1]).a
         if t == "bref":
-            return getattr(self.bundle, e[2])
+            o = self.bundle
+            for seg in e[2].split("_"):
+                o = getattr(o, seg)
+            return o
         raise ValueError(t)
 
 
@@ -150,7 +160,10 @@ def export_bits(widths, expr, port_width, probes=()):
     c = Ctx(widths)
     for pe in probes:
         try:
-            c.build(pe).width
+            if pe[0] == "badcat":
+                h.Concat(c.build(pe[1]), None)  # a concatenation that is refused because of a LATER part
+            else:
+                c.build(pe).width
         except Exception:
             pass
     X = h.ExternalModule(name="T%d" % port_width, port_list=[h.Input(name="a", width=port_width)], domain="verif")
@@ -246,7 +259,7 @@ def check_case(case):
             out.append(("wrong_bits:%s:%s" % (kind, parent[0]), "%s exported bits %s, Python selects %s" % (label, got, expected)))
         if expected is not None and got == expected and pw == len(expected) and not strided_parent(parent):
             # rejected (or accepted) trial indices on the same parent, tried first, must leave no trace
-            probes = [["slice", parent, w + 3], ["slice", parent, [w + 1, w + 1, None]], ["slice", parent, -(w + 2)], ["slice", parent, 0]]
+            probes = [["slice", parent, w + 3], ["slice", parent, [w + 1, w + 1, None]], ["slice", parent, -(w + 2)], ["slice", parent, 0], ["badcat", parent]]
             try:
                 gotp = export_bits(widths, expr, pw, probes=probes)
                 if gotp != expected:
@@ -349,7 +362,7 @@ def shard(idx, n, tier):
     @st.composite
     def nested(draw):
         widths = {"s": draw(st.integers(1, WMAX)), "t": draw(st.integers(1, 6)), "u": draw(st.integers(1, 4)),
-                  "g_x": draw(st.integers(1, 6)), "g_y": draw(st.integers(1, 3))}
+                  "g_x": draw(st.integers(1, 6)), "g_y": draw(st.integers(1, 3)), "g_n_width": draw(st.integers(1, 5)), "g_n_name": draw(st.integers(1, 3))}
 
         def parent(depth):
             k = draw(st.integers(0, 9))
@@ -358,7 +371,7 @@ def shard(idx, n, tier):
             if k == 2:
                 return ["pref", draw(st.sampled_from(["s", "t", "u"]))]
             if k == 3:
-                return ["bref", "g", draw(st.sampled_from(["x", "y"]))]
+                return ["bref", "g", draw(st.sampled_from(["x", "y", "n_width", "n_name"]))]
             if k <= 6:
                 parts = [parent(depth + 1) for _ in range(draw(st.integers(1, 3)))]
                 return ["cat", parts]
